@@ -493,7 +493,9 @@ def _check_marker(repo: Repo, res: Result) -> None:
                 ok_plumb = True
     if not ok_plumb:
         res.add("C11-MARKER", init.qual, "plumb", "LiquidTag.__init__ must hand the marker derived from env.comment_start_string (unescaped) to _tokenize_liquid_expression as comment_start_string", init.file, init.line)
-    fn = propagate_aliases(tk.node)
+    from ..normalize import lexer_canonical
+
+    fn = propagate_aliases(lexer_canonical(tk.node))  # loop variable over finditer is `match`
     # locals bound once to the captured group: `name = match.group("name")`
     binds: dict[str, list] = {}
     for n in walk_no_nested(fn):
